@@ -170,7 +170,7 @@ def c_eval(c, evals: Dict[int, bool], ops: Dict[str, bool]) -> bool:
     raise AnalysisError("bad condition %r" % (c,))
 
 
-def models(conds: Sequence, allowed: int, max_cells: int = 14) -> Iterable[Tuple[Dict[int, bool], Dict[str, bool]]]:
+def models(conds: Sequence, allowed: int, max_cells: int = 18) -> Iterable[Tuple[Dict[int, bool], Dict[str, bool]]]:
     """Enumerate all 'topology models' relevant to the given conditions.
 
     The E-atoms f1..fk partition the allowed rows into cells; any subset of the
